@@ -685,6 +685,7 @@ def shim(names):
     from urwid import CanvasCache, CompositeCanvas
     from urwid.widget import widget as wm
     saved = []
+    SHIMS_ACTIVE[0] += 1
 
     def patch(cls, attr, val):
         saved.append((cls, attr, cls.__dict__[attr]))
@@ -767,6 +768,7 @@ def shim(names):
             setattr(urwid.Columns, "render", wm.cache_widget_render(urwid.Columns))
         yield
     finally:
+        SHIMS_ACTIVE[0] -= 1
         for cls, attr, val in reversed(saved):
             setattr(cls, attr, val)
 
@@ -781,12 +783,141 @@ ROOT_CAUSES = [["store-checks-widget-not-canvas"], ["pile-hidden-child"], ["colu
                ["scrollable-render-moves-scrollpos"]]
 
 
+SHIMS_ACTIVE = [0]
+LAST_TRACE = {}
+
+
+class Tracer:
+    """Records every call of the CanvasCache primitives made while real widgets render: the input of the second
+    sub-model of Model/Cache.v (widgets, keys and canvases interned to integers)."""
+
+    def __init__(self):
+        self.ev, self.fetched, self.dumps = [-2], [], []
+        self.w, self.keepw, self.k, self.c, self.refc = {}, [], {}, {}, {}
+        self.ncid, self.depth, self.quiet = 0, 0, False
+        self.saved = []
+
+    def wid(self, w):
+        i = self.w.get(id(w))
+        if i is None:
+            i = self.w[id(w)] = len(self.keepw)
+            self.keepw.append(w)            # keeps id(w) unique for the whole run
+        return i
+
+    def kid(self, key):
+        return self.k.setdefault(key, len(self.k))
+
+    def install(self):
+        from urwid import CanvasCache
+        T = self
+        orig = {n: CanvasCache.__dict__[n] for n in ("store", "fetch", "invalidate", "cleanup", "clear")}
+        self.saved = list(orig.items())
+        o_store, o_fetch, o_inval, o_cleanup, o_clear = (orig[n].__func__ for n in ("store", "fetch", "invalidate", "cleanup", "clear"))
+
+        def walk_depends(canv):
+            out = []
+            for _x, _y, c, _pos in canv.children:
+                if c.widget_info:
+                    out.append(c.widget_info[0])
+                elif hasattr(c, "children"):
+                    out.extend(walk_depends(c))
+            return out
+
+        def store(cls, wcls, canvas):
+            if canvas.widget_info:
+                widget, size, focus = canvas.widget_info
+                dep = getattr(canvas, "depends_on", None)
+                if dep is None and hasattr(canvas, "children"):
+                    dep = walk_depends(canvas)
+                cid = T.ncid
+                T.ncid += 1
+                T.c[id(canvas)] = cid
+                T.ev += [1, T.wid(widget), T.kid((wcls, size, focus)), cid, int(bool(canvas.cacheable)), len(dep or ())]
+                T.ev += [T.wid(x) for x in (dep or ())]
+            r = o_store(cls, wcls, canvas)
+            if canvas.widget_info:
+                ref = cls._widgets.get(widget, {}).get((wcls, size, focus))
+                if ref is not None and ref() is canvas:
+                    T.refc[id(ref)] = cid
+            return r
+
+        def fetch(cls, widget, wcls, size, focus):
+            r = o_fetch(cls, widget, wcls, size, focus)
+            T.ev += [2, T.wid(widget), T.kid((wcls, size, focus))]
+            T.fetched.append(-1 if r is None else T.c.get(id(r), -2))
+            return r
+
+        def invalidate(cls, widget):
+            if T.depth == 0:
+                T.ev += [3, T.wid(widget)]
+            T.depth += 1
+            try:
+                return o_inval(cls, widget)
+            finally:
+                T.depth -= 1
+
+        def cleanup(cls, ref):
+            cid = T.refc.pop(id(ref), None)
+            if cid is not None:
+                T.ev += [4, cid]
+            T.depth += 1
+            try:
+                return o_cleanup(cls, ref)
+            finally:
+                T.depth -= 1
+
+        def clear(cls):
+            if not T.quiet:
+                T.ev.append(5)
+            return o_clear(cls)
+        for n, f in (("store", store), ("fetch", fetch), ("invalidate", invalidate), ("cleanup", cleanup), ("clear", clear)):
+            setattr(CanvasCache, n, classmethod(f))
+
+    def uninstall(self):
+        from urwid import CanvasCache
+        for n, v in self.saved:
+            setattr(CanvasCache, n, v)
+
+    @staticmethod
+    def digest(ws, ds, nrefs):
+        import hashlib
+        return [len(ws), len(ds), nrefs, hashlib.sha1(core.canon([sorted(ws), sorted(ds), nrefs]).encode()).hexdigest()[:10]]
+
+    def dump(self):
+        from urwid import CanvasCache
+        self.ev.append(8)
+        ws = [[self.wid(w), self.kid(key)] for w, sizes in CanvasCache._widgets.items() for key in sizes]
+        ds = [[self.wid(w), [self.wid(x) for x in l]] for w, l in CanvasCache._deps.items()]
+        self.dumps.append(self.digest(ws, ds, len(CanvasCache._refs)))
+
+    def result(self):
+        import hashlib
+        return {"nfetch": len(self.fetched), "fetched": hashlib.sha1(core.canon(self.fetched).encode()).hexdigest()[:10],
+                "dumps": self.dumps}
+
+
 def run_real(case):
     import urwid
     from urwid import CanvasCache
     urwid.set_encoding("utf-8")
     CanvasCache.clear()
     gc.collect()
+    tracer = None
+    if not SHIMS_ACTIVE[0] and not case.get("probe_c11"):
+        tracer = Tracer()
+        tracer.install()
+    try:
+        return run_real_traced(case, tracer)
+    finally:
+        if tracer is not None:
+            tracer.uninstall()
+            LAST_TRACE.clear()
+            LAST_TRACE[core.canon(case)] = tracer
+
+
+def run_real_traced(case, tracer):
+    import urwid
+    from urwid import CanvasCache
     top = build_real(case["tree"])
     PUBLIC_IDS.clear()
     PUBLIC_IDS.update(id(x) for x in walk(top))
@@ -849,7 +980,12 @@ def run_real(case):
                     snaps = [s for s in snaps if any(s[0] is k for k in keep)]
                 # the same request with the cache emptied first
                 saved = (CanvasCache._widgets, CanvasCache._refs, CanvasCache._deps)
+                if tracer is not None and mode == "swap":
+                    tracer.ev.append(6)
+                    tracer.quiet = True
                 CanvasCache.clear()
+                if tracer is not None:
+                    tracer.quiet = False
                 try:
                     r2 = top.rows(size, focus) if len(size) == 1 else None
                     c2 = top.render(size, focus)
@@ -862,6 +998,8 @@ def run_real(case):
                 if mode == "swap":
                     del c2                      # the fresh canvases die while the empty cache is installed
                     CanvasCache._widgets, CanvasCache._refs, CanvasCache._deps = saved
+                    if tracer is not None:
+                        tracer.ev.append(7)
                 else:
                     if op[3] and c2 is not None:
                         keep.append(c2)
@@ -894,12 +1032,19 @@ def run_real(case):
             elif op[0] == "clear":
                 CanvasCache.clear()
             outs.append(o)
+            if tracer is not None:
+                tracer.dump()
         frozen = [i for i, (c, d) in enumerate(snaps) if content_of(c) != d]
         c11 = sorted(set(c11))
     finally:
         del keep, snaps
         CanvasCache.clear()
-    return {"outs": outs, "frozen": frozen, "c11": c11} if case.get("probe_c11") else {"outs": outs, "frozen": frozen}
+    res = {"outs": outs, "frozen": frozen}
+    if case.get("probe_c11"):
+        res["c11"] = c11
+    if tracer is not None:
+        res["cache"] = tracer.result()
+    return res
 
 
 def summarize(d):
@@ -911,39 +1056,52 @@ def summarize(d):
 # ======================================================================================
 class C06(core.Check):
     pid = "C06"
-    gen_modules = []
+    gen_modules = ["c06_mutators"]
     model_targets = ["theories/Model/Cache.vo"]
     prop_file = "theories/Properties/C06.v"
     extract_v = "Extract/C06X.v"
     allowed_axioms = set()
     design_ref = "DESIGN.md section 5, C06"
-    technique = ("Coq theorems (invariant Fresh via DepsComplete, induction over operation histories) about a line-by-line "
-                 "model of CanvasCache and the render/rows wrappers with the widgets' render bodies left uninterpreted; "
-                 "extracted-model correspondence of the cache bookkeeping on real containers around spy leaves; end-to-end "
-                 "oracle (cached vs cache-emptied render) on random histories over the bundled widgets with a shrinker")
+    technique = ("Coq theorems (invariant Fresh via DepsComplete over a ghost list of all canvases, induction over operation "
+                 "histories with an unconstrained collector) about a line-by-line model of CanvasCache and the render/rows wrappers "
+                 "with the widgets' render bodies left uninterpreted; a Coq-checked table of the public mutators regenerated from "
+                 "the sources; extracted-model correspondence (a) of the whole cached-render machinery on real containers around spy "
+                 "leaves and (b) of the CanvasCache primitives on the call trace of EVERY real-widget case; end-to-end oracle "
+                 "(cached vs cache-emptied render) on random and exhaustive small-scope histories over the bundled widgets")
     level_text = ("Proved in Coq for EVERY render function (an uninterpreted program that may ask for child renders and go on "
-                  "with what they return), every history of Render/Rows/Mutate/Collect/Clear and every fuel: every cached canvas "
+                  "with what they return), every history of Render/Rows/Mutate/Collect/Clear and every fuel, where Collect may "
+                  "free ANY live canvas (nothing is assumed about which canvases a canvas keeps alive): every cached canvas "
                   "equals the cache-less render under the current versions (fresh_invariant, via deps_complete), hence rendering "
                   "with the cache = rendering with the cache emptied first (cache_invisible), a change is visible in the next "
                   "render of every widget (change_visible), rows() through the cache = rows() without it given rows()/render "
                   "consistency (rows_from_cache_ok), live canvases are never altered (finalized_never_mutated); fuel above the "
-                  "widget rank always suffices and CanvasCache.invalidate terminates within its fuel.  Premises: acyclic widget "
-                  "graph; a canvas depends only on its own version and the child canvases it keeps; every mutator calls "
-                  "_invalidate; every canvas cacheable.  REFUTED without the last premise (cache_invisible_full_refuted; the "
-                  "witness is replayed on the implementation and is a recorded finding).  Correspondence/oracle only: that the "
-                  "model is the code (exact comparison of _widgets/_deps keys and rendered stamps after every step on real "
-                  "AttrMap/Padding/Pile/Columns trees) and that the bundled widgets meet the premises (random histories through "
-                  "their public mutators, keypress/mouse_event and contents edits; 2 further recorded findings where they do not: Pile and Columns do not depend on children they hide at zero size; 5 more defects found by this check were repaired in /repo and are kept as regression cases in corpus/C06).")
+                  "widget rank always suffices and CanvasCache.invalidate / cleanup terminate within their fuel.  Also Coq-checked, "
+                  "against a table regenerated from the widget sources every run: every public method / property setter of the "
+                  "bundled widget classes that writes widget state syntactically reaches _invalidate (2 commented exemptions).  "
+                  "Premises: acyclic widget graph; a canvas depends only on its own version and the child canvases it asked for "
+                  "(= its depends_on); every state change comes with _invalidate; every canvas cacheable.  REFUTED without the "
+                  "last premise (cache_invisible_full_refuted; the witness is replayed on the implementation and is a recorded "
+                  "finding).  Correspondence: the model is compared exactly with the implementation on every case - the full "
+                  "cached render/rows/mutate/collect machinery on real AttrMap/Padding/Pile/Columns trees over spy leaves, and the "
+                  "CanvasCache primitives (store with the real depends_on lists, fetch results, invalidate, weakref cleanup order, "
+                  "clear) on the call trace recorded while the bundled widgets render.  Oracle only: that the bundled widgets "
+                  "meet the premises at run time (random and exhaustive small-scope histories through their public mutators, "
+                  "keypress/mouse_event, contents and walker edits; recorded findings where they do not: hidden zero-size "
+                  "children of Pile/Columns/Frame/Overlay, Scrollable moving its scroll position inside render).")
     level_note = ("Trusted: Coq kernel, ExtrOcamlBasic extraction + OCaml driver, the hand-written model of CanvasCache and the "
-                  "wrappers (validated by the correspondence, not proved against Python), CPython reference counting as the "
-                  "collector, the Python oracle.  The widgets' own layout caches (Text._cache_maxcol, ...) are covered by the "
-                  "oracle only.")
-    rule = ("bk cases = (tree of real AttrMap/Padding/Pile/Columns and a size-switching spy container over spy leaves, some "
-            "with ignore_focus or no_cache render; op list of render(widget,maxcol,focus,slot)/rows/mutate/drop slot/clear), "
-            "compared exactly with the extracted model after every op; real cases = (random tree of bundled widgets, op list of "
-            "render(size,focus,keep)/public mutation/gc/clear), judged by cached-vs-cache-emptied render.  non-trivial = a bk "
-            "case that had cached entries, a real case with >= 1 applied mutation and >= 1 compared render; distinct by hash "
-            "of (case, outcome)")
+                  "wrappers (validated by the two correspondences, not proved against Python), the syntactic mutator scan "
+                  "(tools/py2v/mods/c06_mutators.py), the call-trace recorder, the Python oracle.  The widgets' own layout "
+                  "caches (Text._cache_maxcol, ...) are covered by the oracle only.")
+    rule = ("bk cases = (tree of real AttrMap/Padding/Pile/Columns and a size-switching spy container over spy leaves whose height "
+            "depends on focus, some with ignore_focus or no_cache render; op list of render(widget,maxcol,focus,slot)/rows/mutate/"
+            "drop slot/clear), compared exactly with the extracted model after every op; real cases = (tree of bundled widgets, op "
+            "list of render(size,focus,keep)/render of a sub-widget/public mutation/gc/clear) from random generation and four "
+            "exhaustive small-scope families (every mutation selector x argument form per widget kind; every list operation of "
+            "contents lists and walkers at every focus; zero-size children under every decoration; ListBox scroll positions at two "
+            "widths), judged by cached-vs-cache-emptied render AND with the recorded CanvasCache call trace replayed in the "
+            "extracted model (fetch results and cache dumps after every op compared).  non-trivial = a bk case that had cached "
+            "entries, a real case with >= 1 applied mutation and >= 1 compared render; distinct by hash of (case, outcome)")
+    correspondence_name = "cached-render machinery on spy trees + CanvasCache primitive call traces of all real-widget cases"
     trusted_base = [
         "Coq 8.16.1 kernel (coqc; vm_compute used only for the closed witness examples)",
         "extraction: ExtrOcamlBasic only; Z/positive stay Coq datatypes; OCaml 4.13.1",
@@ -951,30 +1109,39 @@ class C06(core.Check):
         "hand-written Model/Cache.v: CanvasCache.store/fetch/invalidate/cleanup/clear, cache_widget_render/rows "
         "(validated by the bookkeeping correspondence, not proved against Python)",
         "table-driven instance in Model/Cache.v for which children a real AttrMap/Padding/Pile/Columns renders at which size/focus",
-        "CPython reference counting + weakref callbacks as the garbage collector of the model's Collect steps",
+        "CPython reference counting + weakref callbacks decide WHICH canvases die in the correspondence runs (the theorems "
+        "allow any live canvas to die)",
+        "tools/py2v/mods/c06_mutators.py: the syntactic scan producing Gen/c06_mutators_gen.v (which methods write state, which reach _invalidate)",
+        "the CanvasCache call-trace recorder (class Tracer) incl. its copy of store's depends_on computation",
         "Python oracle and widget generators in harness/props/c06.py",
     ]
     assumptions = [
         "the widget graph is acyclic (a widget never displays itself)",
-        "a widget's canvas is a function of its own state, the render key and the canvases of the children it asked for, and it "
-        "keeps those canvases as children (depends_on = displayed widgets; the collector cannot free a displayed child)",
-        "every change of a widget's own state is followed by self._invalidate() (checked on the enumerated public mutators by "
-        "the oracle; an ast scan lists candidates that never reach _invalidate as warnings)",
+        "a widget's canvas is a function of its own state, the render key and the canvases of the children it asked for, and "
+        "those children are what it registers as depends_on (nothing is assumed about which canvases stay alive)",
+        "every change of a widget's own state is followed by self._invalidate(): for the public methods and property setters of "
+        "the bundled widget classes this is a Coq-checked obligation over a table regenerated from the sources every run "
+        "(syntactic reachability; 2 commented exemptions); input handlers and run-time behaviour are checked by the oracle",
         "every canvas is cacheable and no class lists 'render' in no_cache (without this the theorem is refuted: finding)",
         "rows_from_cache_ok additionally assumes rows() == render().rows() for every widget (property C11)",
         "plain public attributes without a setter (Divider.top, BoxAdapter.height, Padding.left/right) are not mutators",
     ]
 
     # ---------- implementation ----------
+    last_real_res = None
+
     def run_impl(self, case):
         if case.get("kind") == "bk":
             return run_bk(case)
-        return run_real(case)
+        res = run_real(case)
+        self.last_real_res = res
+        return res
 
     # ---------- model wire format ----------
     def encode(self, case):
         if case.get("kind") != "bk":
-            return None
+            t = LAST_TRACE.get(core.canon(case))
+            return list(t.ev) if t is not None else None
         l = [len(case["nodes"])]
         for n in case["nodes"]:
             cfgs = n.get("configs", [])
@@ -997,7 +1164,46 @@ class C06(core.Check):
                 l += [5]
         return l
 
+    def decode_trace(self, case, ints):
+        """The reply of the trace sub-model, in the shape of the "cache" part of the implementation result."""
+        import hashlib
+        t = LAST_TRACE.get(core.canon(case))
+        it = iter(ints)
+        fetched, dumps = [], []
+        ev, i = t.ev, 1
+        try:
+            while i < len(ev):
+                o = ev[i]
+                if o == 1:
+                    i += 6 + ev[i + 5]
+                elif o == 2:
+                    fetched.append(next(it))
+                    i += 3
+                elif o in (3, 4):
+                    i += 2
+                elif o == 8:
+                    nw = next(it)
+                    ws = [[next(it), next(it)] for _ in range(nw)]
+                    nd = next(it)
+                    ds = []
+                    for _ in range(nd):
+                        w = next(it)
+                        k = next(it)
+                        ds.append([w, [next(it) for _ in range(k)]])
+                    dumps.append(Tracer.digest(ws, ds, next(it)))
+                    i += 1
+                else:
+                    i += 1
+        except StopIteration:
+            return {"malformed": ints[:60]}
+        return {"nfetch": len(fetched), "fetched": hashlib.sha1(core.canon(fetched).encode()).hexdigest()[:10], "dumps": dumps}
+
     def decode(self, case, ints):
+        if case.get("kind") != "bk":
+            # only the cache bookkeeping is the model's business here: everything else is the implementation's own result
+            res = dict(self.last_real_res)
+            res["cache"] = self.decode_trace(case, ints)
+            return res
         it = iter(ints)
         outs = []
         try:
@@ -1223,7 +1429,7 @@ class C06(core.Check):
         for c in empties:
             trees = list(wrappers(c))
             if tier != "quick" or c == empties[0]:
-                trees += [t2 for t in wrappers(c) for t2 in wrappers(t)]
+                trees += [t2 for t in wrappers(c) for t2 in wrappers(t)][::(2 if tier == "quick" else 1)]
             for tree in trees:
                 try:
                     ws = walk(build_real(tree))
@@ -1278,7 +1484,7 @@ class C06(core.Check):
         for tree in kinds:
             for idx in (0, 1):
                 for a in range(18):
-                    for b in (range(4) if tier == "quick" else range(8)):
+                    for b in (range(3) if tier == "quick" else range(8)):
                         yield {"kind": "real", "mode": "swap", "tree": tree,
                                "ops": [["render", 2, 0, 1], ["render", 2, 1, 1], ["mut", idx, a, b, 2],
                                        ["render", 2, 0, 0], ["render", 2, 1, 0]]}
@@ -1294,7 +1500,7 @@ class C06(core.Check):
         # directed: a container that is cached at one size only, over an uncacheable / shared child
         for _ in range(nbk // 10):
             yield self.gen_bk_directed(rng)
-        nreal = 800 if tier == "quick" else 10000
+        nreal = 600 if tier == "quick" else 8000
         for _ in range(nreal):
             yield self.gen_real(rng)
 
@@ -1523,127 +1729,24 @@ class C06(core.Check):
             if i and isinstance(x, int) and x > 0:
                 yield t[:i] + [0] + t[i + 1:]
 
-    # ---------- not case-shaped: ast scan for public mutators that never reach _invalidate ----------
-    SCAN = ["widget/text.py", "widget/edit.py", "widget/columns.py", "widget/pile.py", "widget/grid_flow.py", "widget/padding.py",
-            "widget/widget_decoration.py", "widget/attr_map.py", "widget/attr_wrap.py", "widget/listbox.py", "widget/frame.py",
-            "widget/filler.py", "widget/wimp.py", "widget/divider.py", "widget/box_adapter.py", "widget/line_box.py",
-            "widget/overlay.py", "widget/progress_bar.py", "widget/solid_fill.py", "widget/big_text.py", "widget/bar_graph.py",
-            "widget/scrollable.py", "widget/popup.py", "widget/widget.py", "widget/container.py"]
-
+    # ---------- not case-shaped: the ast scan behind Gen/c06_mutators_gen.v, reported in the evidence ----------
     def extra_checks(self, tier, rng, ev):
-        classes = {}
-        for rel in self.SCAN:
-            path = os.path.join(core.REPO, "urwid", rel)
-            if not os.path.exists(path):
-                continue
-            tree = ast.parse(open(path).read())
-            for node in tree.body:
-                if isinstance(node, ast.ClassDef):
-                    classes[node.name] = node
-        info = {}
-        for cname, cnode in classes.items():
-            methods, setters, props = {}, {}, set()
-            for f in cnode.body:
-                if isinstance(f, ast.FunctionDef):
-                    decs = [ast.unparse(d) for d in f.decorator_list]
-                    if any(d.endswith(".setter") for d in decs):
-                        setters[f.name] = f
-                    elif "property" in decs:
-                        props.add(f.name)
-                    else:
-                        methods[f.name] = f
-                elif isinstance(f, ast.Assign) and isinstance(f.value, ast.Call) and getattr(f.value.func, "id", "") == "property":
-                    args = f.value.args
-                    for t in f.targets:
-                        if isinstance(t, ast.Name) and len(args) > 1 and isinstance(args[1], ast.Name):
-                            setters[t.id] = ("alias", args[1].id)
-            info[cname] = {"methods": methods, "setters": setters, "bases": [ast.unparse(b).split(".")[-1] for b in cnode.bases],
-                           "node": cnode}
-
-        def mro(c, seen=()):
-            out = [c]
-            for b in info.get(c, {}).get("bases", []):
-                if b in info and b not in seen:
-                    out += mro(b, seen + (c,))
-            return out
-
-        def lookup(c, name, kind):
-            for k in mro(c):
-                if name in info[k][kind]:
-                    return info[k][kind][name]
-            return None
-
-        def self_attr(n):
-            return isinstance(n, ast.Attribute) and isinstance(n.value, ast.Name) and n.value.id == "self"
-
-        def analyse(c, f, seen):
-            """(writes own state?, reaches _invalidate?)"""
-            if isinstance(f, tuple):
-                g = lookup(c, f[1], "methods")
-                return analyse(c, g, seen) if g is not None else (False, False)
-            key = (c, f.name, f.lineno)
-            if key in seen:
-                return False, False
-            seen = seen | {key}
-            writes = reaches = False
-            for n in ast.walk(f):
-                if isinstance(n, (ast.Assign, ast.AugAssign, ast.AnnAssign)):
-                    targets = n.targets if isinstance(n, ast.Assign) else [n.target]
-                    for t in targets:
-                        for tt in ast.walk(t):
-                            if self_attr(tt) and isinstance(tt.ctx, ast.Store):
-                                st = lookup(c, tt.attr, "setters")
-                                if tt.attr in ("contents", "_contents", "body", "_body"):
-                                    writes = reaches = True     # MonitoredList / walker callbacks invalidate
-                                elif st is not None:
-                                    w2, r2 = analyse(c, st, seen)
-                                    writes, reaches = writes or w2, reaches or r2
-                                elif not tt.attr.startswith("__"):
-                                    writes = True
-                if isinstance(n, ast.Call):
-                    fn = n.func
-                    name = ast.unparse(fn)
-                    if name.endswith("_invalidate") or name.endswith("CanvasCache.invalidate") or name.endswith("._modified"):
-                        reaches = True
-                    elif self_attr(fn):
-                        g = lookup(c, fn.attr, "methods")
-                        if g is not None:
-                            w2, r2 = analyse(c, g, seen)
-                            writes, reaches = writes or w2, reaches or r2
-                    elif isinstance(fn, ast.Attribute) and self_attr(fn.value) and fn.attr in (
-                            "append", "insert", "extend", "pop", "remove", "clear", "sort", "reverse", "set_focus", "update"):
-                        # a call on a contents list / walker held by the widget: those invalidate through callbacks
-                        reaches = reaches or fn.value.attr in ("contents", "_contents", "body", "_body", "cells")
-            return writes, reaches
-
+        import sys
+        sys.path.insert(0, os.path.join(core.ROOT, "tools", "py2v"))
+        try:
+            from mods import c06_mutators
+        finally:
+            sys.path.pop(0)
+        mutators, plain = c06_mutators.scan(core.REPO)
         dist = ev["dist"]
-        n_mut = n_warn = 0
-        OBSERVERS = {"render", "rows", "pack", "keypress", "mouse_event", "get_cursor_coords", "move_cursor_to_coords",
-                     "get_pref_col", "selectable", "sizing", "calculate_visible", "get_focus_offset_inset", "rows_max",
-                     "get_line_translation", "position_coords", "get_item_rows", "get_item_size", "get_rows_sizes",
-                     "get_column_sizes", "column_widths", "get_display_widget", "generate_display_widget", "options"}
-        widgetish = [c for c in info if any(k in ("Widget", "WidgetDecoration", "WidgetWrap", "WidgetContainerMixin")
-                                            for k in mro(c)[1:] + [c])]
-        for c in sorted(widgetish):
-            items = [(n, f) for n, f in info[c]["methods"].items() if not n.startswith("_") and n not in OBSERVERS]
-            items += [(n + " (setter)", f) for n, f in info[c]["setters"].items() if not n.startswith("_")]
-            for n, f in items:
-                writes, reaches = analyse(c, f, frozenset())
-                if writes:
-                    n_mut += 1
-                    if not reaches:
-                        n_warn += 1
-                        dist[f"ast-warning:public mutator never reaches _invalidate: {c}.{n}"] = 1
-            init = info[c]["methods"].get("__init__")
-            if init is not None:
-                for nn in ast.walk(init):
-                    if isinstance(nn, (ast.Assign, ast.AnnAssign)):
-                        for t in (nn.targets if isinstance(nn, ast.Assign) else [nn.target]):
-                            if self_attr(t) and not t.attr.startswith("_") and lookup(c, t.attr, "setters") is None \
-                                    and t.attr not in ("logger",):
-                                dist[f"ast-note:plain public attribute (assigning it is not a mutator): {c}.{t.attr}"] = 1
-        dist["ast:public mutators analysed"] = n_mut
-        dist["ast:warnings"] = n_warn
+        dist["ast:public mutators analysed (Coq-checked table Gen/c06_mutators_gen.v)"] = len(mutators)
+        dist["ast:mutators that do not reach _invalidate (must be on the exemption list of Proofs/CacheMutators.v)"] = \
+            sum(1 for m in mutators if not m[3])
+        for c, n, st, r in mutators:
+            if not r:
+                dist[f"ast-warning:public mutator never reaches _invalidate: {c}.{n}" + (" (setter)" if st else "")] = 1
+        for c, a in plain:
+            dist[f"ast-note:plain public attribute (assigning it is not a mutator): {c}.{a}"] = 1
         return []
 
 
